@@ -107,7 +107,7 @@ impl FieldPosition {
 
     pub fn to_byte(&self) -> u8 {
         if self.chunk == 0 {
-            (-(self.position as i8)) as u8
+            (self.position as i8).wrapping_neg() as u8
         } else {
             self.chunk
         }
@@ -128,7 +128,7 @@ impl BinaryDeserializer for FieldPosition {
     fn deserialize(context: &mut DeserializationContext<'_>) -> Result<Self> {
         let byte = context.read_i8()?;
         if byte < 0 {
-            Ok(FieldPosition::new(0, (-byte) as u8))
+            Ok(FieldPosition::new(0, byte.unsigned_abs()))
         } else {
             Ok(FieldPosition::new(byte as u8, 0))
         }
